@@ -162,7 +162,7 @@ push_harness!(h_push_a128, A128x16, 1024);
 push_harness!(h_push_a64_big, A64x17, 1024);
 
 // more capture shapes (thorough)
-// @verif prop=C17,C16 tier=thorough timeout=2400 mem=12 unwind=34 leakcheck=1
+// @verif prop=C17,C16 tier=thorough timeout=2400 mem=12 unwind=44 leakcheck=1
 // @enc as h_push_zst
 // @sym as h_push_zst; T = [u64;5] (size 40, align 8); capacity 256
 // @bound one push + one drain step from an arbitrary fill level
